@@ -75,6 +75,12 @@ def run(ctx, replay=None):
         "integer data only in the random stream (exact comparison); float tolerance cases live in C18/C19",
         "ops outside the generator (linalg, fft, histogram, gufunc, einsum, percentile, unique, IO backends) are not exercised here",
     ]
+    if replay is not None and replay.get("case", {}).get("ctr"):  # harness/props_ext/c01_contract.py
+        from harness.props_ext import c01_contract
+        return c01_contract.run(ctx, replay_case=replay["case"])
+    if replay is not None and replay.get("case", {}).get("reshape"):  # harness/props_ext/c01_reshape.py
+        from harness.props_ext import c01_reshape
+        return c01_reshape.replay(ctx, replay["case"])
     if replay is not None:
         prog = replay["case"]["program"]
         want = P.run_np(prog)[prog[-1]["out"]]
@@ -143,3 +149,7 @@ def run(ctx, replay=None):
         d["program"] = by_req.get(d["request"].split(" ", 1)[1])
     from harness.props_ext import c01_expr2  # phase 3: second-layer model (Props/C01Ext.lean, C01Derived.lean; ex2.*)
     c01_expr2.run_ext(ctx, corr)
+    from harness.props_ext import c01_reshape  # reshape planner (Props/C01Reshape.lean, C03Reshape.lean; rsh.*)
+    c01_reshape.run(ctx)
+    from harness.props_ext import c01_contract  # matmul / tensordot / dot / einsum contraction plan (Props/C01Contract.lean; ctr.*)
+    c01_contract.run(ctx)
